@@ -4,6 +4,8 @@ import importlib
 REGISTRY = {
     'C01': ('sim.props.c01', 'C01'),
     'C02': ('sim.props.c02', 'C02'),
+    'C03': ('sim.props.c03', 'C03'),
+    'C06': ('sim.props.c06', 'C06'),
     'C08': ('sim.props.c08', 'C08'),
     'C13': ('sim.props.c13', 'C13'),
 }
